@@ -556,8 +556,19 @@ def bounds_summary(sym, env, which, leb):
 def bounds_while(leb):
     def h(sym, env, e):
         from rs2coq import coq_B
-        which = "front" if _has_mcall(e[1], "front") else "back"
+        which = "front" if _has_mcall(e[1] if e[0] == "while" else e[2], "front") else "back"
         if sym.case.get("mode", "summary") == "summary":
+            bounds_summary(sym, env, which, leb); return ("unit",)
+        if e[0] == "whilelet":          # while let Some(..) = taps.front() { if expired { pop } else { break } }
+            from rs2coq import LoopBreak, Env as _Env
+            v_ = sym.ev(e[2], env)
+            b_ = sym.pmatch(e[1], v_)
+            if b_ is None: return ("unit",)
+            inner = _Env(env); inner.vars.update(b_)
+            try:
+                sym.block(e[3], inner)
+            except LoopBreak:
+                return ("unit",)
             bounds_summary(sym, env, which, leb); return ("unit",)
         c = sym.ev(e[1], env)
         if c[0] != "B": raise Unsupported("loop condition is not a boolean")
@@ -1051,7 +1062,7 @@ def run_case(ent, case, body_ast, params_txt, assume=None):
         found = [st_[1] for st_ in body_ast[1] if st_[0] == "expr" and st_[1][0] == kind] + ([body_ast[2]] if body_ast[2] is not None and body_ast[2][0] == kind else [])
         def deep(node, acc):
             if isinstance(node, tuple):
-                if node and node[0] == kind: acc.append(node)
+                if node and (node[0] == kind or (kind == "while" and node[0] == "whilelet")): acc.append(node)
                 for x_ in node: deep(x_, acc)
             elif isinstance(node, list):
                 for x_ in node: deep(x_, acc)
